@@ -246,6 +246,17 @@ class Expander:
         raise Stuck("macro-stage form " + k)
 
 
+def rename_name(n, old, new):
+    """every occurrence of the identifier `old` in a tree (binders, uses, assignment targets) becomes `new`"""
+    if isinstance(n, Node):
+        return Node(n.kind, *[rename_name(x, old, new) for x in n.a])
+    if isinstance(n, list):
+        return [rename_name(x, old, new) for x in n]
+    if isinstance(n, tuple):
+        return tuple(rename_name(x, old, new) for x in n)
+    return new if (isinstance(n, str) and n == old) else n
+
+
 def binders(n, acc):
     """let-bound names of a tree (with multiplicity), lambdas included"""
     if n.kind == "let":
@@ -399,8 +410,21 @@ class SGen(coregen.Gen):
         if kind == "tmpl":
             m = self.mname()
             holes = [self.fresh("h") for _ in range(1 + r.below(2))]
-            self.macros.append(MFn(m, holes, self.template(holes, d - 1, ctx)))
-            return Node("mcall", m, [self.arg(d, ctx) for _ in holes])
+            tmpl = self.template(holes, d - 1, ctx)
+            args = [self.arg(d, ctx) for _ in holes]
+            if self.p.get("reuse_names", True) and r.chance(1, 3):
+                # a binder of the quoted block takes the name of a variable of the USE site (one that the spliced argument
+                # code does not mention: that would be the listed capture F6): the block's scope must end with the block,
+                # the use-site variable must mean the same after the expansion as before
+                import re
+                bound = sorted(set(binders(tmpl, [])))
+                mentioned = set(re.findall(r"[A-Za-z_][A-Za-z0-9_]*", " ".join(coregen.src(a) for a in args)))
+                outer = [v[0] for v in ctx["vars"] if v[1] == F and v[0] not in mentioned and v[0] not in holes and v[0] not in bound]
+                if bound and outer:
+                    tmpl = rename_name(tmpl, r.pick(bound), r.pick(outer))
+                    self.bump("template_binder_reuses_use_site_name")
+            self.macros.append(MFn(m, holes, tmpl))
+            return Node("mcall", m, args)
         if kind == "letcode":
             m, h, c = self.mname(), self.fresh("h"), self.fresh("c")
             t1 = self.template([h], d - 1, ctx, flat=True)
